@@ -53,6 +53,10 @@ pub struct Teardown {
     /// inline (their completion is visible before the final poll).
     #[serde(default)]
     pub inline_on_flush: bool,
+    /// The kernel refuses to unregister the pool's buffer ring (EEXIST, as a
+    /// single-issuer ring does for a call from another thread).
+    #[serde(default)]
+    pub refuse_unregister: bool,
 }
 
 #[derive(Clone, Debug, Serialize, Deserialize)]
@@ -1246,6 +1250,10 @@ impl<'a> Exec<'a> {
         self.sync_events();
         self.update_consumed();
         let ring_fd = self.world.ring_fd;
+        if t.refuse_unregister && self.pool.is_some() {
+            sim::sim().cfg.register_fail = Some((abi::UNREGISTER_PBUF_RING, libc::EEXIST));
+            self.feat("unregister-refused");
+        }
         let maps_before = crate::shims::sim_maps();
         // Objects.
         let mut objs = vec![Obj::Ring, Obj::Sq(0)];
@@ -1489,6 +1497,7 @@ impl<'a> Exec<'a> {
             }
         }
         let _ = inflight_at_ring_drop;
+        sim::sim().cfg.register_fail = None;
         track::forget_since(self.world.mark);
         self.feats.clone()
     }
